@@ -9,13 +9,32 @@ namespace Drx.LinkFlow
 open Drx Drx.Lscr Drx.Spec Drx.Link
 
 mutual
+/-- the expression constructors whose image in the model's AST the control-flow link looks at (conditions of `repeat while`,
+    right-hand sides of `set`): a fixed list, so that extensions of agent-link's `FragE` / `Emb` do not affect the link -/
+def FragE0 : Expr → Bool
+  | .int _ => true
+  | .str _ => true
+  | .sym _ => true
+  | .var _ _ => true
+  | .un _ a => FragE0 a
+  | .bin _ a b => FragE0 a && FragE0 b
+  | .field a => FragE0 a
+  | .call _ as => FragL0 as
+  | .list as => FragL0 as
+  | _ => false
+def FragL0 : List Expr → Bool
+  | [] => true
+  | e :: es => FragE0 e && FragL0 es
+end
+
+mutual
 /-- structured statements over agent-link's expression / simple-statement fragment: if [else], repeat while, repeat with a
     LOCAL loop variable (up and down) -/
 def FragT : Stmt → Bool
   | .ifThen c t e => FragE c && FragTs t && FragTs e
-  | .repeatWhile c b => FragE c && FragTs b
+  | .repeatWhile c b => FragE c && FragE0 c && FragTs b
   | .repeatWith (.var .loc v) a b _ body => idOk v && FragE a && FragE b && FragTs body
-  | .set lv v => FragS (.set lv v)
+  | .set lv v => FragS (.set lv v) && FragE0 v
   | .call f as => FragS (.call f as)
   | .exit => true
   | _ => false
